@@ -122,6 +122,22 @@ func verifDial(network, addr string, cfg *tls.Config) (*tls.Conn, error) {
                               "func VerifBlindChosen(" + m.group(1) + ") (" + m.group(2) + ") {\n" + body2 + "}\n")
         replace[os.path.join(REPO, "mpc/ps/verif_forge.go")] = add
         notes["overlay_psforge"] = "VerifBlindChosen generated from Blind"
+        # exported pass-through wrappers of the two Fiat-Shamir random oracles (same parameter lists)
+        wrappers = []
+        for fn, exported in (("randomOracleForPoKofSignature", "VerifOraclePoK"), ("randomOracleForBlindingProof", "VerifOracleBlinding")):
+            mm = re.search(r"^func " + fn + r"\((.*?)\) \[\]byte \{", src, flags=re.M)
+            if not mm:
+                raise RuntimeError(fn + " not found in mpc/ps/ps.go")
+            params = mm.group(1)
+            names = []
+            for piece in params.split(","):
+                piece = piece.strip()
+                if piece:
+                    names.append(piece.split()[0])
+            wrappers.append("// %s passes its arguments to %s (generated by the verification overlay).\nfunc %s(%s) []byte {\n\treturn %s(%s)\n}\n" % (exported, fn, exported, params, fn, ", ".join(names)))
+        add2 = os.path.join(outdir, "mpc__ps__verif_oracle.go")
+        open(add2, "w").write("package ps\n\nimport math \"github.com/IBM/mathlib\"\n\n" + "\n".join(wrappers))
+        replace[os.path.join(REPO, "mpc/ps/verif_oracle.go")] = add2
     else:
         raise RuntimeError("unknown overlay kind %r" % kind)
     oj = os.path.join(outdir, "overlay.json")
